@@ -132,7 +132,7 @@ def other(pid, text, prover=True, static=False, lemmas=False, assumptions=(), te
         static=static,
         lemmas=lemmas,
         bounded=pid.lower(),
-        technique=technique or (PYVC + " for the kernel functions; bounded small-world runs of the command loops"),
+        technique=technique or (PYVC + " for the kernel functions" + ("; heap-frame / call-site / order obligations over the whole package decided on the AST (vf/statics.py)" if static else "") + "; bounded small-world runs of the command loops"),
         explanation=text + BOUNDED_NOTE,
         assumptions=list(assumptions),
     )
@@ -151,7 +151,9 @@ other(
 other(
     "C03",
     "Proved: exit-code constants (ground obligations on errors.py), find_original_hash_entry_for_path (the reference is the first "
-    "'original' entry in generation order), history-load dominance. Bounded: the three traversal loops and exit-decision tails of "
+    "'original' entry in generation order), history-load dominance, the exit-decision tails of verify / diff / create (region contracts), "
+    "the reporting half of test_for_missing_files (region `report`: None iff no unignored path is left, otherwise the completeness failure and one "
+    "output line per missing path). Bounded: the three traversal loops and exit-decision tails of "
     "verify / diff / create on every single and pairwise mutation of small sealed worlds.",
     static=True,
     assumptions=["collision resistance (CR) for 'detects every change'", "click maps ClickException.exit_code to the process exit code"],
@@ -199,7 +201,9 @@ other(
     "C09",
     "Proved: _compare_and_log_directory_hashes (result 2 iff content AND structure hash both equal the recorded ones, else 1 and the "
     "mismatch is logged) and the exit decision of verify_directory_hash_subcommand as a region contract (exit 12 iff every calculated "
-    "format has a recorded failure), for all values of the failure bookkeeping; the directory-hash kernel it calls is proved under "
+    "format has a recorded failure), for all values of the failure bookkeeping; find_directory_hash_entries_for_path (the recorded entries "
+    "the comparison runs over: every hash entry of every directory record of the path in EVERY generation, for '.' also every root hash "
+    "entry of every generation - nothing of a later or earlier generation is dropped; four loop invariants); the directory-hash kernel it calls is proved under "
     "C07. Bounded: the traversal / comparison loops of the 200-line body (nested closure, nonlocal) on every single mutation at every "
     "depth incl. the root, histories with -n / -sf generations and nested histories with differing formats.",
 )
